@@ -244,6 +244,7 @@ impl Pack<Byte32> for H256 {
     #[verifier::external_body]
     fn pack(&self) -> (r: Byte32) ensures r@ == self@ { unimplemented!() }
 }
+pub open spec fn hashes_view(s: Seq<Byte32>) -> Seq<Seq<u8>> { s.map_values(|b: Byte32| b@) }
 pub mod packed { pub use super::*; }
 // Rust guarantees an allocation is at most isize::MAX bytes; a Byte32 occupies 32 bytes
 #[verifier::external_body]
